@@ -335,7 +335,7 @@ func (gopt *GetOpt) Parse(args []string) ([]string, error) {
 		// NOTE: Bash completions have = as a special char and results should be trimmed form the = on.
 		Logger.SetPrefix("\n")
 		Logger.Printf("mode: %s, COMP_LINE: '%s', parts: %#v, args: %#v\n", completionTarget, compLine, compLineParts, args)
-		_, completions, err := parseCLIArgs(completionTarget, gopt.programTree, compLineParts, Normal)
+		_, completions, err := parseCLIArgs(completionTarget, gopt.programTree, compLineParts, gopt.programTree.mode)
 		if err != nil {
 			fmt.Fprintf(Writer, "\nERROR: %s\n", err)
 			exitFn(124) // programmable completion restarts from the beginning, with an attempt to find a new compspec for that command.
